@@ -72,6 +72,7 @@ type Entry struct {
 	Opaque  uint32
 	Resp    string // ok | st:<code> | hit:<flags>:<exp>:<value> | silent | (empty when cut before)
 	RespVal []byte
+	At      int64 // the backend's clock (second) when the request was logged
 }
 
 // FaultKind enumerates what a fault plan does to the matching request.
@@ -400,6 +401,7 @@ func (s *Server) Serve(c net.Conn) {
 		} else {
 			out = s.exec(h, &e)
 		}
+		e.At = time.Now().Unix() + s.Offset
 		s.log = append(s.log, e)
 		s.mu.Unlock()
 		if gateDone != nil {
